@@ -45,6 +45,12 @@ pub fn generate(s: &mut Session, tier: &str, rng: &mut Rng) {
             if !thorough && *t != "tcp" && *t != others[ci % others.len()] {
                 continue;
             }
+            // datagrams of vmess travel inside every transport, those of trojan inside tls / wss / quic (README): the udp
+            // faults and the udp canaries apply to them as well
+            let mut base = base.clone();
+            if base.protocol == "vmess" || (base.protocol == "trojan" && matches!(*t, "tls" | "wss" | "quic")) {
+                base.udp = true;
+            }
             let cfg = base.with(t);
             s.begin_case(&format!("faults:{}", cfg.label()));
             let Some(w) = cfg.start(s, false, 4) else {
